@@ -216,6 +216,7 @@ def norm(s):
 
 def rule_d(ctx):
     import re
+    from . import C06
     F = ctx.facts
     b = F.one(RTRAIT + "append_columns_with_borders")
     env = {}
@@ -237,6 +238,21 @@ def rule_d(ctx):
         if all(m):
             for mm in m:
                 walks.append((k, mm.group(1)))
+            # the advance happens on every path through the loop body: with the update block removed, the loop's next()
+            # can no longer reach itself (a `continue` before `pos += w + 1` would shift every later junction)
+            for r in ups:
+                ubb = r[1]
+                nb = None
+                for bb2, t2 in b.calls(lambda cd, t2: callee_method(t2) == "next"):
+                    if b.dominates(bb2, ubb) and (nb is None or b.dominates(nb, bb2)):
+                        nb = bb2
+                some = C06._some_target(b, nb) if nb is not None else None
+                if some is None:
+                    ctx.violation("C05-D", "walk#%s:in-loop" % k, b.term(ubb)["span"], b.id, "cannot find the loop the position walk belongs to")
+                    continue
+                ctx.check(nb not in b.reach_from(some, avoid=[r2[1] for r2 in ups]), "C05-D", "walk:advance-on-every-path#%d" % len(walks), b.term(ubb)["span"], b.id,
+                          "a path through the loop body skips `pos += w + 1`: junctions and merged rules of every later column "
+                          "are placed too far left")
         else:
             other.append((l, k, forms, ups))
     ctx.floor("C05-D", "position walks advancing by column width + 1", len(walks), 3)
